@@ -34,7 +34,7 @@ class C17(Plugin):
     pid = "C17"
     entry = 17
     prop = 17
-    counts = {"quick": 250, "thorough": 6000}
+    counts = {"quick": 250, "thorough": 20000}
     rule = ("case = (strict converter with URL-safe prefixes and synonyms, delimiter ':' or '/', 6 requests); request = /<prefix><delimiter><identifier> "
             "with a known canonical prefix, a known synonym or an unknown prefix and an identifier of 1..4 non-empty URL-path-safe segments (never "
             "'.' / '..') joined by '/', 30 % of the segments containing the delimiter itself (leading, trailing, inside, doubled). Both the in-process Flask client and the Starlette "
